@@ -21,7 +21,12 @@ SIB_TAG = "sib"
 def siblings():
     t = triggers.files(SIB_TAG, modes=("alpha", "beta", "gamma"))
     return {"ok/one.py": t["src/app%s.py" % SIB_TAG], "ok/two.ts": t["src/web%s.ts" % SIB_TAG], "ok/three.rs": t["src/core%s.rs" % SIB_TAG],
-            "ok/four.py": t["src/other%s.py" % SIB_TAG], ".thailint.yaml": "dry:\n  enabled: true\n  min_duplicate_lines: 3\n"}
+            "ok/four.py": t["src/other%s.py" % SIB_TAG], ".thailint.yaml": "dry:\n  enabled: true\n  min_duplicate_lines: 3\n",
+            # string patterns that occur in this ONE file only: below every cross-file threshold unless something counts them twice
+            "ok/solo.py": ("def set_solo_mode(order, mode):\n    order.mode = mode\n    return order\n\n\n"
+                           "def solo_all(orders):\n    for order in orders:\n        set_solo_mode(order, \"express\")\n    return orders\n\n\n"
+                           "def solo_slowly(order):\n    return set_solo_mode(order, \"economy\")\n\n\n"
+                           "def solo_classify(order):\n    if order.tier == \"gold\":\n        return 3\n    if order.tier == \"silver\":\n        return 2\n    return 1\n")}
 
 
 def lint_all(arg):
@@ -29,7 +34,8 @@ def lint_all(arg):
     import faulthandler
     from pathlib import Path
 
-    files_b64, self_test = arg
+    files_b64, self_test = arg[0], arg[1]
+    order = arg[2] if len(arg) > 2 else None  # None: one lint_directory (walk order); list: one lint_files call in exactly this order
     root = runner.new_dir("x")
     files = {k: base64.b64decode(v) for k, v in files_b64.items()}
     runner.write_tree(root, files)
@@ -50,7 +56,10 @@ def lint_all(arg):
         nl.NestingDepthRule.check = boom
     out = {"raised": None}
     try:
-        vs = Orchestrator(project_root=Path(root)).lint_directory(Path(root))
+        if order is None:
+            vs = Orchestrator(project_root=Path(root)).lint_directory(Path(root))
+        else:
+            vs = Orchestrator(project_root=Path(root)).lint_files([Path(root) / f for f in order])
         out["v"] = sorted([v.rule_id, os.path.relpath(str(v.file_path), root) if os.path.isabs(str(v.file_path)) else str(v.file_path), v.line, v.column, v.message[:200]] for v in vs)
     except BaseException as e:  # noqa: BLE001
         out["v"] = None
@@ -139,6 +148,22 @@ def make_cases(ctx, rng):
     return cases
 
 
+def unparsable_py(data: bytes) -> bool:
+    """Independent of thai-lint: CPython cannot parse it (syntax / encoding / NUL), as opposed to running out of stack or memory."""
+    import ast
+    import warnings
+
+    try:
+        with warnings.catch_warnings():
+            warnings.simplefilter("ignore")
+            ast.parse(data)
+        return False
+    except (SyntaxError, ValueError):
+        return True
+    except (RecursionError, MemoryError):
+        return False
+
+
 def raised_key(text):
     """Mechanism key of an exception that escapes the orchestrator: type + normalised start of its message."""
     m = re.search(r"(\w+(?:Error|Exception))\W*:?\s*(.*)", ANSI.sub("", text), re.S)
@@ -178,10 +203,22 @@ def run(ctx):
         return
     def per_file_rules(rows):
         return sorted(r for r in rows if r[1].startswith("ok/") and not r[0].startswith(CROSS))
+
+    def stringly_rows(rows):
+        return sorted(r[:4] for r in rows if r[0].startswith("stringly-typed."))  # (the message lists the other places in run order)
     base_sib = per_file_rules(base["value"]["v"])
+    base_stringly = stringly_rows(base["value"]["v"])
     ctx.obs["sibling_violations"] = len(base_sib)
     cases = make_cases(ctx, rng)
-    jobs = [(enc(dict(sib, **{c["name"]: c["data"]})), False) for c in cases]
+    healthy = sorted(f for f in sib if f.startswith("ok/"))
+    for i, c in enumerate(cases):
+        # the offending file is met before the healthy ones, after them, or wherever the directory walk puts it
+        c["order"] = [None, healthy + [c["name"]], [c["name"]] + healthy][i % 3]
+    jobs = [(enc(dict(sib, **{c["name"]: c["data"]})), False, c["order"]) for c in cases]
+    base_files = runner.call(lint_all, (enc(sib), False, healthy), timeout=120)
+    if not base_files.get("ok") or per_file_rules(base_files["value"]["v"] or []) != base_sib or stringly_rows(base_files["value"]["v"] or []) != base_stringly:
+        ctx.inconclusive_if(True, "the healthy files give different findings as a directory and as an explicit file list: %s" % str(base_files)[:300])
+        return
     outs = runner.pmap(lint_all, jobs, timeout=120, total_timeout=3000)
     # confirmation runs for watchdog hits
     slow = [i for i, o in enumerate(outs) if o.get("timeout")]
@@ -192,7 +229,8 @@ def run(ctx):
     for case, o in zip(cases, outs):
         ctx.evaluations += 1
         files = dict(sib, **{case["name"]: case["data"]})
-        rep = {"id": case["id"], "offender": case["name"], "mutators": case["mclass"], "argv": ["nesting", "--format", "json", "."]}
+        rep = {"id": case["id"], "offender": case["name"], "mutators": case["mclass"], "argv": ["nesting", "--format", "json", "."],
+               "library_call": "lint_directory(root)" if case.get("order") is None else "lint_files(%r)" % case["order"]}
         if o.get("timeout"):
             if o.get("confirmed"):
                 ctx.discrepancy("hang:%s:%s" % (case["mclass"], case["lang"]), "%s: lint_directory did not finish within 120 s nor within 240 s" % case["id"], rep, files)
@@ -226,6 +264,15 @@ def run(ctx):
             new = [r for r in got_sib if r not in base_sib][:2]
             ctx.discrepancy("siblings-changed:%s" % case["mclass"].split("+")[0], "%s: findings of the healthy files changed: lost %r new %r" % (case["id"], lost, new), rep, files)
         ctx.count("sibling_comparisons")
+        if case["name"].endswith(".py") and unparsable_py(case["data"]):
+            # an unparsable Python file has no string patterns to contribute: the cross-file rule must report exactly what it reports without it
+            got_st = stringly_rows(v["v"])
+            if got_st != base_stringly:
+                lost = [r for r in base_stringly if r not in got_st][:2]
+                new = [r for r in got_st if r not in base_stringly][:2]
+                ctx.discrepancy("cross-file-findings-changed-by-unparsable-file:stringly-typed", "%s: stringly-typed findings changed although the offending file cannot be parsed: lost %r new %r" % (
+                    case["id"], lost, new), rep, files)
+            ctx.count("cross_file_comparisons")
     # CLI layer sample: exit codes / tracebacks
     cmds = ["nesting", "magic-numbers", "dry", "srp", "stringly-typed", "improper-logging", "file-header", "unwrap-abuse", "lbyl", "perf"]
     sample = rng.sample(range(len(cases)), min(len(cases), ctx.size(60, 600)))
